@@ -363,6 +363,23 @@ def variable_kern_section(ctx):
             ds, fonts = dsgen.make_designspace(rng, masters, lib, instances=False)
             if mapped:
                 ds.axes[0].map = [(100, 100), (400, 500), (900, 900)]
+            # (when the layout is built as variable features the featureWriters ARGUMENT is not handed on -- observation O26 --
+            # and only the default source's lib key selects the writers: the choice is stated both ways)
+            for f in fonts:
+                f.lib["com.github.googlei18n.ufo2ft.featureWriters"] = [
+                    {"class": "CursFeatureWriter"}, {"class": "KernFeatureWriter", "module": "ufo2ft.featureWriters." + wname},
+                    {"class": "MarkFeatureWriter"}, {"class": "GdefFeatureWriter"}]
+            if i % 4 == 3:
+                # ... and a SPARSE layer source between the masters (it has no kerning of its own: the pair values there are the
+                # interpolation of the full masters')
+                from fontTools.designspaceLib import SourceDescriptor
+                layer = fonts[0].newLayer("Sparse")
+                gl = layer.newGlyph("A"); gl.width = 505; fonts[0]["A"].drawPoints(gl.getPointPen())
+                sd = SourceDescriptor()
+                sd.font, sd.layerName, sd.location, sd.name = fonts[0], "Sparse", {"Weight": 300}, "master.Sparse"
+                sd.familyName, sd.styleName = "Fam", "Sparse"
+                ds.sources.insert(1, sd)
+                ctx.klass("variable kerning: with a sparse layer source")
             vf = getattr(ufo2ft, fn)(ds, useProductionNames=False, featureWriters=[CursFeatureWriter, wcls, MarkFeatureWriter, GdefFeatureWriter])
             b = io.BytesIO(); vf.save(b)
         except Exception as e:
@@ -388,6 +405,25 @@ def variable_kern_section(ctx):
                                  "at master %d's location the pair (%s, %s) is adjusted by %r; UFO kerning lookup in that master gives %r (%d pairs differ)" % (
                                      (k,) + bad[0] + (len(bad),)))
                 break
+        if i % 4 == 3:
+            # at the sparse source's location (design 300, half way between the first two masters): the blend of their values
+            inst = instancer.instantiateVariableFont(TTFont(io.BytesIO(b.getvalue())), {"wght": 250 if mapped else 300})
+            b2 = io.BytesIO(); inst.save(b2)
+            lay = Layout(TTFont(io.BytesIO(b2.getvalue())))
+            lk = lay.lookups_for("latn", {"kern"})
+            k0, k1 = ({kk: int(v) for kk, v in masters[m]["kerning"].items()} for m in (0, 1))
+            bad = []
+            for a, _ in NAMES:
+                for c, _ in NAMES:
+                    w0 = lookupKerningValue((a, c), k0, groups, glyphToFirstGroup=g1, glyphToSecondGroup=g2)
+                    w1 = lookupKerningValue((a, c), k1, groups, glyphToFirstGroup=g1, glyphToSecondGroup=g2)
+                    got = lay.pair_adjust(lk, a, c)[0]
+                    if abs(got - (w0 + w1) / 2) > 1:
+                        bad.append((a, c, got, (w0 + w1) / 2))
+            if bad:
+                ctx.spec_failure(dict(case, location="the sparse layer source's (half way between masters 0 and 1)", pairs=bad[:6]),
+                                 "at the sparse source's location the pair (%s, %s) is adjusted by %r; the blend of the two neighbouring masters is %r (%d pairs differ)" % (
+                                     bad[0] + (len(bad),)))
 
 
 F52_SIG = "legacy-kern-writer-declared-tag-not-derived-from-a-unicode-script"
